@@ -15,6 +15,8 @@ def comp(c):
 
 def py_iloc_key(key):
     k = key[0]
+    if k == 'nokey':
+        return None
     if k == 'all':
         return slice(None)
     if k == 'int':
@@ -32,6 +34,8 @@ def py_iloc_key(key):
 
 def py_loc_key(key):
     k = key[0]
+    if k == 'nokey':
+        return None
     if k == 'all':
         return slice(None)
     if k == 'loc':
@@ -148,13 +152,18 @@ def rand_frame(rng, max_rows=4, max_cols=4, kinds='ifbUO', min_rows=0, min_cols=
     ks = ks[:nc]
     cols = [rand_column(rng, k, nr, na) for k in ks]
     # equal-width U columns so that they can share a block
-    for i in range(1, nc):
-        if cols[i]['dt'][0] == 'U' and cols[i - 1]['dt'][0] == 'U' and rng.random() < 0.7:
-            w = max(cols[i]['dt'][1], cols[i - 1]['dt'][1])
+    i = 0
+    while i < nc:
+        if cols[i]['dt'][0] == 'U':
             j = i
-            while j >= 0 and cols[j]['dt'][0] == 'U':
-                cols[j]['dt'] = ['U', w]
-                j -= 1
+            while j + 1 < nc and cols[j + 1]['dt'][0] == 'U' and rng.random() < 0.7:
+                j += 1
+            w = max(cols[k]['dt'][1] for k in range(i, j + 1))
+            for k in range(i, j + 1):
+                cols[k]['dt'] = ['U', w]
+            i = j + 1
+        else:
+            i += 1
     f = {'index': rand_labels(rng, nr, index_kind), 'columns': rand_labels(rng, nc, columns_kind or rng.choice(['str', 'str', 'int'])),
          'cols': cols, 'name': rng.choice([['none'], ['s', 'nm']]) if name else ['none']}
     return f
